@@ -151,9 +151,13 @@ class Wire:
             ret = node["dest"]["l"] == 0 and not node["dest"]["p"]
             ev = None
             if d == "binrw::binread::BinRead::read_options" and side == "read":
-                ev = ("rw", ga[0], self._count_arg(body, node))
+                ev = ("rw", ga[0], self._count_arg(body, node), None)
             elif d == "binrw::binwrite::BinWrite::write_options" and side == "write":
-                ev = ("rw", ga[0], None)
+                o = body.origin(node["args"][0])
+                cv = None
+                if o[0] == "ref" and o[1][0] == "const" and o[1][1] is not None:
+                    cv = o[1][1]
+                ev = ("rw", ga[0], None, cv)
             elif d == "std::io::Seek::seek":
                 o = body.origin(node["args"][1])
                 if o[0] == "agg" and o[1][0] == "adt" and o[1][3] == "Current" and o[2][0][0] == "const" and o[2][0][1] is not None:
@@ -216,6 +220,8 @@ class Wire:
                 segs = self.tyname_segs(tname, side, where)
                 if e[2] == "count":
                     out.append(Seg(name="", w=None, cls="counted", var={"kind": "count", "elem": segs}))
+                elif len(e) > 3 and e[3] is not None and len(segs) == 1:
+                    out.append(Seg(name="", w=segs[0]["w"], cls="const0" if e[3] == 0 else "const", value=e[3]))
                 else:
                     out.extend(segs)
             elif e[0] == "seek":
@@ -289,7 +295,17 @@ class Wire:
                 if len(tot) == 1 and None not in tot:
                     res = [Seg(name="#0", w=tot.pop(), cls="hand-variant", alts=[list(k) for k in widths])]
                 else:
-                    res = [Seg(name="#0", w=None, cls="hand-variable", var={"kind": "hand", "alts": [list(k) for k in widths]})]
+                    # common fixed prefix, then a variable remainder
+                    alts = list(widths.values())
+                    pre = []
+                    i = 0
+                    while all(len(a) > i for a in alts) and len({(a[i]["w"], a[i]["cls"]) for a in alts}) == 1 and alts[0][i]["w"] is not None:
+                        pre.append(alts[0][i])
+                        i += 1
+                    rest = [[(x["w"], x["cls"]) for x in a[i:]] for a in alts]
+                    res = pre + [Seg(name="", w=None, cls="tail-alts", var={"kind": "hand", "alts": rest})]
+                    for j, s in enumerate(res):
+                        s["name"] = "#%d" % j
         for s in res:
             s["hand"] = ent[3]["name"]
         self._hand[key] = res
@@ -563,15 +579,62 @@ class Wire:
                 return Seg(name="", w=None, cls="undecidable", **d)
             return Seg(name="", w=p["w"], cls="time", ity=gens[0], scale=int(gens[1]) if len(gens) > 1 and gens[1].isdigit() else None, **d)
         # workspace-local helper: derive from its body
-        alts = self.helper_body_segs(name, side, fw)
-        if alts is None:
+        info = self.helper_events(name, side, fw)
+        if info is None:
             return Seg(name="", w=None, cls="undecidable", **d)
+        body, seqs = info
+        d["helper_path"] = body.name
+        seqs = set(seqs)
+        # loop shape: {(), (elems..., loop)}
+        loops = [s for s in seqs if s and s[-1][0] == "loop"]
+        if loops and len(loops) == 1 and seqs - set(loops) <= {()}:
+            elems = self.events_to_segs(loops[0][:-1], side, body.name)
+            src = self.loop_source(body, side)
+            return Seg(name="", w=None, cls="helper", var={"kind": "helper-loop", "source": src},
+                       inner=[Seg(name="", w=None, cls="loop")] + elems, loop_source=src, **d)
+        alts = {}
+        for s in seqs:
+            segs = self.events_to_segs(s, side, body.name)
+            alts[tuple((x["w"], x["cls"]) for x in segs)] = segs
         if len(alts) == 1:
             segs = list(alts.values())[0]
             if all(s["w"] is not None for s in segs):
                 return Seg(name="", w=sum(s["w"] for s in segs), cls="helper", inner=segs, **d)
             return Seg(name="", w=None, cls="helper", var={"kind": "helper", "inner": segs}, inner=segs, **d)
         return Seg(name="", w=None, cls="helper", var={"kind": "helper-alts", "alts": [list(k) for k in alts]}, **d)
+
+    def helper_events(self, fname, side, where):
+        cands = [k for k in self.mir.bodies if k.split("::")[-1] == fname and not k.endswith("#promoted")]
+        if len(cands) != 1:
+            self.und(where, "helper %s resolves to %d bodies" % (fname, len(cands)))
+            return None
+        body = self.mir.body(cands[0])
+        try:
+            return body, self.mir_events(body, side)
+        except Undecidable as e:
+            self.und(where, str(e))
+            return None
+
+    def loop_source(self, body, side):
+        """what the single loop of a helper iterates over: ('range0', arg index, tuple field) | ('iter', arg index) | ('?', text)"""
+        its = body.calls_to(r"IntoIterator::into_iter$")
+        if len(its) != 1:
+            return ("?", "%d into_iter calls" % len(its))
+        o = body.origin(its[0][1]["args"][0])
+        if o[0] == "agg" and o[1][0] == "adt" and o[1][1].endswith("ops::range::Range") and o[2][0][0] == "const" and o[2][0][1] == 0:
+            hi = o[2][1]
+            if hi[0] == "field" and hi[1][0] == "arg":
+                return ("range0", hi[1][1], hi[2])
+            if hi[0] == "arg":
+                return ("range0", hi[1], None)
+            return ("?", "range upper bound %s" % (hi,))
+        if o[0] == "call" and o[1].endswith("::iter") and o[3] and o[3][0][0] == "ref":
+            inner = o[3][0][1]
+            if inner[0] == "deref" and inner[1][0] == "arg":
+                return ("iter", inner[1][1])
+            if inner[0] == "arg":
+                return ("iter", inner[1])
+        return ("?", str(o)[:120])
 
 
 def fixed_size(segs):
